@@ -32,6 +32,9 @@ type Ctx struct {
 	Node       byte
 	uuidSeq    uint32
 	KeepLog    bool
+	// Mismatch counts plan entries that did not fit the occurrence they were meant for (the explorer
+	// treats that as a harness error, never as a verdict)
+	Mismatch int
 }
 
 var cur = &Ctx{}
@@ -116,7 +119,12 @@ func Order(site string, m interface{}) []string {
 	if c.KeepLog {
 		c.Log = append(c.Log, Point{Occ: occ, Site: site, N: len(ids)})
 	}
-	return permute(ids, c.Plan[occ])
+	alt := c.Plan[occ]
+	if alt >= Alternatives(len(ids)) {
+		c.Mismatch++
+		alt = 0
+	}
+	return permute(ids, alt)
 }
 
 // Now is the replica's wall clock.
